@@ -208,7 +208,7 @@ pub fn pools() -> &'static Pools {
 
 pub fn gen_val(rng: &mut Rng) -> Val {
     let p = pools();
-    match rng.usize(19) {
+    match rng.usize(21) {
         0 => Val::U8(rng.next() as u8),
         1 => Val::I16(rng.next() as i16),
         2 => Val::U32(rng.next() as u32),
@@ -226,6 +226,8 @@ pub fn gen_val(rng: &mut Rng) -> Val {
         15 => Val::Bin(rng.next() as u8),
         16 => Val::Oct(rng.next() as u32),
         17 => Val::ListI32((0..1 + rng.usize(5)).map(|_| rng.next() as i32 >> rng.usize(32)).collect()),
+        18 => Val::ArrList((0..1 + rng.usize(8)).map(|_| rng.next() as i32 >> rng.usize(32)).collect()),
+        19 => Val::Enum(*rng.pick(&crate::props::enums_fixed::FMT_ALL)),
         _ => Val::Err(*rng.pick(&[
             scpi::error::Error::new(scpi::error::ErrorCode::NoError),
             scpi::error::Error::new(scpi::error::ErrorCode::DataOutOfRange),
